@@ -19,6 +19,7 @@ import PyAbel.Model.RbasexImage
 import PyAbel.Model.Polynomial
 import PyAbel.Model.Recursions
 import PyAbel.Model.Profiles
+import PyAbel.Model.RbasexCache
 import PyAbel.Gen.Tables
 open PyAbel PyAbel.Proto
 
@@ -120,6 +121,42 @@ def runHistory {K : Type} [DecidableEq K] (R : Rules K) (c : KeyCodec K) (ops : 
   match go State.init ops [] with
   | none => "bad-op"
   | some outs => "ok " ++ " ".intercalate outs
+
+/-- `rbxcache <op>…`: ops `c:k:v:f:r` (call: basis id, valid-mask id, forward 0/1, regularisation id) and `x:all|forward|inverse`;
+    regularisation 0 is `None`, ids ≥ 100 cannot be honoured, id 50 (`'pos'`) cannot with basis ids ≥ 1000 (odd orders > 1).
+    Prints, per op, the outcome and the observable part of the state. -/
+def rbxOk (k r : Nat) : Bool := r < 100 && !(r == 50 && k ≥ 1000)
+
+def rbxShow (s : RbxCache.St Nat Nat Nat) : String :=
+  let o := fun (x : Option Nat) => match x with | some v => toString v | none => "-"
+  s!"bs={o s.bsPrm} vk={s.validKey} trf={if s.trf.isSome then 1 else 0} trifull={if s.triFull.isSome then 1 else 0} triprm={o s.triPrm} tri={if s.tri.isSome then 1 else 0}"
+
+def rbxHistory (ops : List String) : String :=
+  let rec go (s : RbxCache.St Nat Nat Nat) (ops : List String) (acc : List String) : Option (List String) :=
+    match ops with
+    | [] => some acc.reverse
+    | op :: rest =>
+      match op.splitOn ":" with
+      | ["c", k, v, f, r] =>
+        match k.toNat?, v.toNat?, f.toNat?, r.toNat? with
+        | some k, some v, some f, some r =>
+          let (s', out) := RbxCache.call rbxOk 0 s ⟨k, v, f == 1, r⟩
+          let o := match out with
+            | .fwd t => s!"fwd:{t.1}:{t.2}"
+            | .inv t => s!"inv:{t.1}:{t.2.1}:{t.2.2}"
+            | .raise => "raise"
+          go s' rest (s!"{o} {rbxShow s'}" :: acc)
+        | _, _, _, _ => none
+      | ["x", sel] =>
+        let sel? : Option RbxCache.Select := match sel with
+          | "all" => some .all | "forward" => some .forward | "inverse" => some .inverse | _ => none
+        match sel? with
+        | some sel => let s' := RbxCache.cleanup s sel; go s' rest (s!"clean {rbxShow s'}" :: acc)
+        | none => none
+      | _ => none
+  match go (RbxCache.St.init 0) ops [] with
+  | some lines => "ok " ++ " | ".intercalate lines
+  | none => "bad-op"
 
 def cacheHistory (module : String) (ops : List (List String)) : String :=
   match module with
@@ -323,6 +360,8 @@ def handle (toks : List String) : String :=
   | ["npy"] => "error"
   -- cache module op / op / …   →  history of the basis-cache state machine
   | "cache" :: module :: rest => cacheHistory module (splitOps rest)
+  -- rbxcache op op …   →  history of rbasex's in-memory transform caches
+  | "rbxcache" :: rest => rbxHistory rest
   -- hansen forward hold1 dr <row…>   →  hansenlaw_transform of one row (constants from Gen/Tables)
   | "hansen" :: fwd :: hold :: dr :: rest =>
     match parseBool fwd, parseBool hold, parseFloats [dr], parseFloats rest with
